@@ -423,8 +423,9 @@ def add_scrypt(reg, num_keys=1):
                              'struct.error': ('iff', '%s and key_len * %d > (2 ** 32 - 1) * 32' % (ok, nk))},
                      modifies=[], ensures=ens, result=_shape(nk),
                      loops={0: {'havoc': ['data_out'], 'types': {'data_out': 'acc'}, 'index': 'k',
-                                # (the first clause is the arithmetic hint that block k lies inside stage_1)
-                                'invariant': ['k < p ==> (k + 1) * (128 * r) <= p * (128 * r)',
+                                # (the first two clauses are the arithmetic hints that block k lies inside stage_1: with them the
+                                # slice bounds are linear consequences over the monomials k*r, p*r)
+                                'invariant': ['0 <= k * (128 * r)', 'k < p ==> (k + 1) * (128 * r) <= p * (128 * r)',
                                               'len(data_out) == k', 'len(b"".join(data_out)) == k * (128 * r)',
                                               'b"".join(data_out) == spec.kdf.scrypt_mix(stage_1, 128 * r, N, k)']}},
                      opaque=['spec.kdf.pbkdf2']))
